@@ -183,6 +183,8 @@ def history_cases(draw, max_steps):
     # some particles are released switched off: the release file has an 'active' column of 0 / 1
     scn["release"]["active_col"] = draw(st.sampled_from([0, 0, 0b0110, 0b1, 0b10101]))
     scn["grid"]["metric"] = draw(st.sampled_from([None, "varying"]))  # cell sizes that differ between cells
+    # positions stored as packed integers (the way examples/killer/dense.yaml stores X)
+    scn["output"]["pack_xy"] = draw(st.sampled_from([None, None, 0.01]))
     return scn
 
 
@@ -207,7 +209,7 @@ def history_oracle(scn) -> core.CaseResult:
         except Exception as e:  # noqa: BLE001
             res.fail("output_unreadable", repr(e))
             return res
-    res.cls(scn["output"]["layout"])
+    res.cls(scn["output"]["layout"] + ("_positions_packed" if scn["output"].get("pack_xy") else ""))
     G = meta["G"]
     M = G["mask"]
     jm, im = M.shape
